@@ -116,7 +116,7 @@ def run(chk, ctx):
         chk.undecide('C20.S', 'decorators without a model',
                      '; '.join(unknown_deco[:3]))
     # encoder envelope
-    fm = prog.function('frame._marshal')
+    fm = ctx.envelope_function()
     it2, outs2 = codec.run(prog, fm, [Sym('param', 'frame_type'),
                                      Sym('param', 'channel_id'),
                                      Sym('typed', Sym('param', 'payload'),
@@ -134,7 +134,7 @@ def run(chk, ctx):
             env['channel'] is Sym('param', 'channel_id') and \
             T.sub(env['size'], plen) == 0 and \
             T.sub(total, T.add(env['size'], 8)) == 0
-    chk.ob('C20.P', 'frame._marshal', p_ok,
+    chk.ob('C20.P', fm.short, p_ok,
            'writes %s' % (T.show(j.value)[:120] if j else None),
            detail={'expected': 'pack(u8 type, u16 channel, u32 len(payload))'
                    ' ++ payload ++ one end octet'}, site=site2)
